@@ -829,6 +829,11 @@ func (s *xswScript) randTrust() trustCfg {
 		t.kind = "m"
 		t.kds = []saml.KeyDescriptor{mk("encryption", "idp")} // no signing certificate at all
 	}
+	if (t.kind == "p" || t.kind == "f") && s.c.chance(0.6) {
+		// a pinned certificate / fingerprint takes precedence over whatever the metadata lists: those are not roots then
+		t.kds = []saml.KeyDescriptor{mk("signing", "attacker"), mk("", "idp2")}
+		s.c.count("c01-pinned-with-other-metadata-certs", t.kind)
+	}
 	switch t.kind {
 	case "m":
 		t.toks = []string{"m", fmt.Sprint(len(t.kds))}
